@@ -312,6 +312,24 @@ class VBound(SV):
         return f"Bound({self.recv}.{self.name})"
 
 
+class VSuper(SV):
+    """`super()` inside a method: attribute lookups start at the bases of the defining class, bound to the same object"""
+    __slots__ = ("recv", "ci")
+
+    def __init__(self, recv, ci):
+        self.recv = recv
+        self.ci = ci
+
+
+class VPartial(SV):
+    """a function with its first argument already supplied (super().method)"""
+    __slots__ = ("fn", "first")
+
+    def __init__(self, fn, first):
+        self.fn = fn
+        self.first = first
+
+
 class VBuiltin(SV):
     __slots__ = ("name",)
 
